@@ -1091,6 +1091,12 @@ func (v *Verifier) valEqDyn(l, r Val, pos token.Pos) *Term {
 			return c.Or(c.And(lp.Nil, rp.Nil), c.And(c.Not(lp.Nil), c.Not(rp.Nil), c.Eq(lp.Ref, rp.Ref)))
 		}
 	}
+	if lo, ok := l.(OpaqueVal); ok {
+		if ro, ok := r.(OpaqueVal); ok {
+			c := v.eng.C
+			return c.Or(c.And(lo.Nil, ro.Nil), c.And(c.Not(lo.Nil), c.Not(ro.Nil), c.Eq(lo.ID, ro.ID)))
+		}
+	}
 	defer func() {
 		if rr := recover(); rr != nil {
 			if s, ok := rr.(string); ok && strings.Contains(s, "mismatch") {
@@ -1139,12 +1145,39 @@ func (v *Verifier) shift(fr *Frame, st *State, op token.Token, ls Scalar, r Val,
 	} else {
 		rs := v.asScalar(r, pos)
 		if rs.T.Sort == IntSort {
-			// hybrid mode: integer shift count
+			// hybrid mode: integer shift count; encoded as a case split over the count
+			// (no int2bv bridge): count >= w shifts everything out.
 			if !fr.inSpec && isSigned(rs.Typ) {
 				v.oblige(fr, st, "shift", pos, c.ILe(c.Inti(0), rs.T), "negative shift amount")
 			}
-			in := c.And(c.ILe(c.Inti(0), rs.T), c.ILt(rs.T, c.Inti(int64(w))))
-			rs = Scalar{c.Ite(in, c.Int2BV(rs.T, w), c.BVu(uint64(w), w)), uintTypeOfWidth(w)}
+			if rs.T.IsConst() {
+				n := rs.T.Val
+				if n.Cmp(big.NewInt(int64(w))) > 0 {
+					n = big.NewInt(int64(w))
+				}
+				rs = Scalar{c.BV(n, w), uintTypeOfWidth(w)}
+			} else {
+				signedX := isSigned(ls.Typ)
+				var res *Term
+				if op == token.SHL || !signedX {
+					res = c.BVu(0, w)
+				} else {
+					res = c.BVAshr(ls.T, c.BVu(uint64(w-1), w))
+				}
+				for k := w - 1; k >= 0; k-- {
+					var sh *Term
+					switch {
+					case op == token.SHL:
+						sh = c.BVShl(ls.T, c.BVu(uint64(k), w))
+					case signedX:
+						sh = c.BVAshr(ls.T, c.BVu(uint64(k), w))
+					default:
+						sh = c.BVLshr(ls.T, c.BVu(uint64(k), w))
+					}
+					res = c.Ite(c.Eq(rs.T, c.Inti(int64(k))), sh, res)
+				}
+				return Scalar{res, ls.Typ}
+			}
 		}
 		rw := rs.T.Sort.W
 		if isSigned(rs.Typ) && !fr.inSpec {
